@@ -159,6 +159,7 @@ Derive(sc) ==
                                    THEN sc.colls[sc.colls[c].items[1].c].kind
                                    ELSE IF sc.arena[sc.colls[c].items[1].s].k = "O" THEN "owned" ELSE "leaf")
                              ELSE sc.colls[c].kind ]],
+    hasretry |-> \E c \in 1..Len(sc.colls) : sc.colls[c].kind = "retry",
     progs  |-> sc.progs,
     policy |-> sc.policy,
     faults |-> sc.faults ]
